@@ -22,6 +22,7 @@ import (
 	"testing"
 	"time"
 
+	"github.com/containerd/nri/pkg/adaptation"
 	"github.com/containerd/nri/pkg/api"
 	"pgregory.net/rapid"
 
@@ -38,6 +39,10 @@ import (
 //	burst Callers[i] is the list of events caller i fires back to back, all callers
 //	      concurrently; Side steps (reg/stop/veto) run on one more goroutine at the same time
 //	veto  arm plugin Sel: its next handler invocation for Event returns an error
+//	slowreq  plugin Sel becomes slow for Event: the plugin request timeout is shortened to
+//	      c06SlowTimeout for the duration of this step, one request for Event is fired, and
+//	      the plugin's handler does not answer within the timeout (it returns normally, no
+//	      error, long after). The runtime drops such a plugin; the request goes on.
 type C06Step struct {
 	Op      string    `json:"op"`
 	Idx     string    `json:"idx,omitempty"`
@@ -55,10 +60,20 @@ type C06Case struct {
 
 const c06MaxPlugins = 8
 
+// c06SlowTimeout is the plugin request timeout while a slowreq step runs (healthy handlers
+// answer in well under a millisecond); c06NormalTimeout is the package-wide setting of this
+// test binary otherwise.
+const (
+	c06SlowTimeout   = 400 * time.Millisecond
+	c06NormalTimeout = 30 * time.Second
+)
+
 // ---- generator ---------------------------------------------------------------------------
 
 type c06GenState struct {
 	masks     []int32 // effective masks of the plugins registered so far
+	idxs      []string
+	gone      []bool // stopped (or made slow) by an earlier step
 	vetoEvent int32   // event of the most recent veto step (steers the next request)
 	pool      []string
 }
@@ -88,6 +103,8 @@ func (g *c06GenState) reg(t *rapid.T) C06Step {
 		eff = allMask
 	}
 	g.masks = append(g.masks, eff)
+	g.idxs = append(g.idxs, idx)
+	g.gone = append(g.gone, false)
 	return C06Step{Op: "reg", Idx: idx, Mask: mask}
 }
 
@@ -127,8 +144,46 @@ func (g *c06GenState) stop(t *rapid.T) C06Step {
 	s := C06Step{Op: "stop"}
 	if len(g.masks) > 0 {
 		s.Sel = rapid.IntRange(0, len(g.masks)-1).Draw(t, "stop_plugin")
+		g.gone[s.Sel] = true
 	}
 	return s
+}
+
+// slowreq picks a live plugin and an event it is subscribed to, preferably with another live
+// subscriber of a higher index behind it.
+func (g *c06GenState) slowreq(t *rapid.T) (C06Step, bool) {
+	type pe struct {
+		sel int
+		ev  int32
+	}
+	var behind, any []pe
+	for i := range g.masks {
+		if g.gone[i] {
+			continue
+		}
+		for e := int32(1); e <= 13; e++ {
+			if !maskHas(g.masks[i], e) {
+				continue
+			}
+			any = append(any, pe{i, e})
+			for j := range g.masks {
+				if j != i && !g.gone[j] && g.idxs[j] > g.idxs[i] && maskHas(g.masks[j], e) {
+					behind = append(behind, pe{i, e})
+					break
+				}
+			}
+		}
+	}
+	pool := behind
+	if len(pool) == 0 {
+		pool = any
+	}
+	if len(pool) == 0 {
+		return C06Step{}, false
+	}
+	c := pool[rapid.IntRange(0, len(pool)-1).Draw(t, "slow_choice")]
+	g.gone[c.sel] = true
+	return C06Step{Op: "slowreq", Sel: c.sel, Event: c.ev}, true
 }
 
 func (g *c06GenState) burst(t *rapid.T) C06Step {
@@ -179,7 +234,16 @@ func genC06(t *rapid.T) C06Case {
 	for i := 0; i < pre && len(c.Steps) < n; i++ {
 		c.Steps = append(c.Steps, g.reg(t))
 	}
+	// a few histories contain one slow plugin (each costs the shortened request timeout)
+	wantSlow := rapid.IntRange(0, 7).Draw(t, "slow_plugin") == 7
 	for len(c.Steps) < n {
+		if wantSlow && len(g.masks) >= 2 && rapid.IntRange(0, 3).Draw(t, "slow_now") == 0 {
+			if s, ok := g.slowreq(t); ok {
+				c.Steps = append(c.Steps, s)
+				wantSlow = false
+				continue
+			}
+		}
 		op := rapid.IntRange(0, 19).Draw(t, "op")
 		switch {
 		case op < 3 && len(g.masks) < c06MaxPlugins:
@@ -206,6 +270,7 @@ type c06Entry struct {
 	Event  int32  `json:"event"`
 	Tag    string `json:"tag"`
 	Veto   string `json:"veto,omitempty"`
+	Slow   bool   `json:"slow,omitempty"` // this invocation did not answer within the request timeout
 }
 
 type c06Plugin struct {
@@ -218,7 +283,10 @@ type c06Plugin struct {
 	Active    int64  `json:"active"`
 	StopStart int64  `json:"stop_start,omitempty"`
 	StopEnd   int64  `json:"stop_end,omitempty"`
-	RegErr    string `json:"reg_err,omitempty"`
+	Slow      bool   `json:"slow,omitempty"` // did not answer a slowreq: dropped by the runtime between StopStart and StopEnd
+	// the runtime closed the connection although the plugin was neither stopped nor slow
+	ClosedByRuntime bool   `json:"closed_by_runtime,omitempty"`
+	RegErr          string `json:"reg_err,omitempty"`
 	Refused   bool   `json:"refused,omitempty"`
 	TimedOut  bool   `json:"timed_out,omitempty"`
 
@@ -240,6 +308,9 @@ type c06Req struct {
 	ReqID   string            `json:"req_id,omitempty"`   // update: id of the trailing entry for the requested container
 	ReqUni  map[string]string `json:"req_uni,omitempty"`  // update: its unified map
 	HasResp bool              `json:"has_resp,omitempty"` // a create/update/stop response was returned
+	// issued by a slowreq step (shortened request timeout); SlowPlugin did not answer it
+	Short      bool   `json:"short_timeout,omitempty"`
+	SlowPlugin string `json:"slow_plugin,omitempty"`
 }
 
 type c06Hist struct {
@@ -260,6 +331,9 @@ type c06Exec struct {
 	mu      sync.Mutex
 	log     []c06Entry
 	armed   map[[2]int]string
+	slow    map[[2]int]bool // armed: the next invocation does not answer in time
+	slowHit map[[2]int]bool // … and it happened
+	done    chan struct{}
 	vetoN   int
 	plugins []*c06Plugin
 	reqs    []*c06Req
@@ -270,10 +344,12 @@ func newC06Exec(c C06Case) (*c06Exec, error) {
 	if err != nil {
 		return nil, err
 	}
-	return &c06Exec{rt: rt, caseNo: c06CaseCtr.Add(1), spin: time.Duration(c.SpinUs) * time.Microsecond, armed: map[[2]int]string{}}, nil
+	return &c06Exec{rt: rt, caseNo: c06CaseCtr.Add(1), spin: time.Duration(c.SpinUs) * time.Microsecond, armed: map[[2]int]string{},
+		slow: map[[2]int]bool{}, slowHit: map[[2]int]bool{}, done: make(chan struct{})}, nil
 }
 
 func (x *c06Exec) close() {
+	close(x.done)
 	x.mu.Lock()
 	ps := append([]*c06Plugin(nil), x.plugins...)
 	x.mu.Unlock()
@@ -293,8 +369,20 @@ func (x *c06Exec) enter(ord int, e api.Event, tag string) error {
 	if text != "" {
 		delete(x.armed, k)
 	}
-	x.log = append(x.log, c06Entry{Seq: x.ctr.Add(1), Plugin: ord, Event: int32(e), Tag: tag, Veto: text})
+	hang := x.slow[k]
+	if hang {
+		delete(x.slow, k)
+		x.slowHit[k] = true
+	}
+	x.log = append(x.log, c06Entry{Seq: x.ctr.Add(1), Plugin: ord, Event: int32(e), Tag: tag, Veto: text, Slow: hang})
 	x.mu.Unlock()
+	if hang { // no answer within the request timeout; a normal (empty-handed) return long after
+		select {
+		case <-x.done:
+		case <-time.After(3 * c06SlowTimeout):
+		}
+		return nil
+	}
 	if x.spin > 0 && hashOdd(tag, ord) {
 		time.Sleep(x.spin)
 	}
@@ -399,6 +487,9 @@ func (x *c06Exec) stop(s C06Step) {
 	if p == nil || p.Active == 0 || p.StopStart != 0 {
 		return
 	}
+	if p.fp.Closed.Load() > 0 { // already gone without our doing
+		return
+	}
 	p.StopStart = x.ctr.Add(1)
 	p.fp.Stub.Stop()
 	p.StopEnd = x.ctr.Add(1)
@@ -415,9 +506,47 @@ func (x *c06Exec) veto(s C06Step) {
 	x.mu.Unlock()
 }
 
-func (x *c06Exec) request(caller int, e int32) {
-	if e < 1 || e > 13 {
+// slowreq: see C06Step. Runs alone (top level only), so nothing else is in flight while the
+// package-wide request timeout is short.
+func (x *c06Exec) slowreq(s C06Step) {
+	if s.Event < 1 || s.Event > 13 {
 		return
+	}
+	p := x.pick(s.Sel)
+	armedSlow := false
+	var k [2]int
+	if p != nil && p.Active != 0 && p.StopStart == 0 && maskHas(p.Mask, s.Event) && p.fp.Closed.Load() == 0 {
+		k = [2]int{p.Ord, int(s.Event)}
+		x.mu.Lock()
+		delete(x.armed, k) // slow, not vetoing
+		x.slow[k] = true
+		x.mu.Unlock()
+		armedSlow = true
+	}
+	adaptation.SetPluginRequestTimeout(c06SlowTimeout)
+	defer adaptation.SetPluginRequestTimeout(c06NormalTimeout)
+	mark := x.ctr.Add(1)
+	r := x.request(0, s.Event)
+	if r == nil {
+		return
+	}
+	r.Short = true
+	if !armedSlow {
+		return
+	}
+	x.mu.Lock()
+	hit := x.slowHit[k]
+	delete(x.slow, k) // an earlier plugin vetoed the request: nobody was slow
+	x.mu.Unlock()
+	if hit {
+		r.SlowPlugin = p.Name
+		p.Slow, p.StopStart, p.StopEnd = true, mark, x.ctr.Add(1)
+	}
+}
+
+func (x *c06Exec) request(caller int, e int32) *c06Req {
+	if e < 1 || e > 13 {
+		return nil
 	}
 	r := &c06Req{Tag: fmt.Sprintf("c%dr%d", x.caseNo, x.reqN.Add(1)), Event: e, Caller: caller}
 	r.Start = x.ctr.Add(1)
@@ -451,6 +580,7 @@ func (x *c06Exec) request(caller int, e int32) {
 	x.mu.Lock()
 	x.reqs = append(x.reqs, r)
 	x.mu.Unlock()
+	return r
 }
 
 func (x *c06Exec) step(s C06Step, top bool) {
@@ -466,6 +596,10 @@ func (x *c06Exec) step(s C06Step, top bool) {
 		x.stop(s)
 	case "veto":
 		x.veto(s)
+	case "slowreq":
+		if top {
+			x.slowreq(s)
+		}
 	case "req":
 		if top {
 			x.request(0, s.Event)
@@ -500,6 +634,11 @@ func (x *c06Exec) step(s C06Step, top bool) {
 func (x *c06Exec) history() *c06Hist {
 	x.mu.Lock()
 	defer x.mu.Unlock()
+	for _, p := range x.plugins {
+		if p.fp != nil && p.Active != 0 && p.StopStart == 0 && p.fp.Closed.Load() > 0 {
+			p.ClosedByRuntime = true
+		}
+	}
 	h := &c06Hist{Plugins: x.plugins, Reqs: append([]*c06Req(nil), x.reqs...), Log: append([]c06Entry(nil), x.log...)}
 	sort.Slice(h.Reqs, func(i, j int) bool { return h.Reqs[i].Start < h.Reqs[j].Start })
 	return h
@@ -536,16 +675,21 @@ func c06State(p *c06Plugin, r *c06Req) int {
 	if r.End < p.RegStart {
 		return stMustNot
 	}
+	if p.StopStart != 0 {
+		if r.Start > p.StopEnd {
+			return stMustNot
+		}
+		if r.End > p.StopStart {
+			// the stop (or the drop by the runtime) overlaps the request, whether or not the
+			// registration does too: the plugin may or may not be invoked, and its answer
+			// may be lost with the connection
+			return stStopping
+		}
+	}
 	if r.Start < p.Active {
 		return stRegistering
 	}
-	if p.StopStart == 0 || r.End < p.StopStart {
-		return stMust
-	}
-	if r.Start > p.StopEnd {
-		return stMustNot
-	}
-	return stStopping
+	return stMust
 }
 
 func judgeC06(c C06Case, h *c06Hist) ev.Outcome {
@@ -571,9 +715,22 @@ func judgeC06(c C06Case, h *c06Hist) ev.Outcome {
 		if p.Refused {
 			return fail("plugin %s with valid index %s and valid subscription mask %#x (empty mask sent: %v) was turned away by the runtime", p.Name, p.Idx, p.Mask, p.WireZero)
 		}
-		if p.StopStart != 0 && (firstStop == 0 || p.StopStart < firstStop) {
+		if p.StopStart != 0 && !p.Slow && (firstStop == 0 || p.StopStart < firstStop) {
 			firstStop = p.StopStart
 		}
+	}
+	// while the request timeout was short a healthy plugin that lost its connection was most
+	// likely dropped for being late on an overloaded machine: such a history is not judged
+	for _, r := range h.Reqs {
+		if !r.Short {
+			continue
+		}
+		for _, p := range h.Plugins {
+			if p.ClosedByRuntime {
+				return ev.Outcome{Overloaded: true, History: h, Classes: []string{"healthy-plugin-dropped-under-short-timeout"}}
+			}
+		}
+		break
 	}
 
 	// entries logged by a plugin after its Stop began are not ordered with respect to the
@@ -590,7 +747,7 @@ func judgeC06(c C06Case, h *c06Hist) ev.Outcome {
 			return fail("harness: log entry of unknown plugin %d", e.Plugin)
 		}
 		p := h.Plugins[e.Plugin]
-		if p.StopStart != 0 && e.Seq > p.StopStart {
+		if p.StopStart != 0 && !p.Slow && e.Seq > p.StopStart {
 			lenient["entry-after-stop-began"] = true
 			continue
 		}
@@ -661,7 +818,23 @@ func judgeC06(c C06Case, h *c06Hist) ev.Outcome {
 				lenient["error-after-a-stop"] = true
 				continue
 			}
+			if r.SlowPlugin != "" {
+				return fail("caller of %s %s received error %q although no plugin vetoed the request (plugin %s did not answer within the request timeout of %v and returned no error; invoked: %s)",
+					evName(r.Event), r.Tag, r.Err, r.SlowPlugin, c06SlowTimeout, c06Names(h, es))
+			}
 			return fail("caller of %s %s received error %q although no plugin returned an error for it", evName(r.Event), r.Tag, r.Err)
+		}
+		if r.SlowPlugin != "" {
+			classes["slow-plugin"] = true
+			for _, e := range es {
+				if q := h.Plugins[e.Plugin]; q.Name != r.SlowPlugin && c06State(q, r) == stMust {
+					for _, sl := range h.Plugins {
+						if sl.Name == r.SlowPlugin && q.Idx > sl.Idx {
+							classes["slow-plugin-with-subscriber-behind"] = true
+						}
+					}
+				}
+			}
 		}
 		// completeness
 		for _, p := range h.Plugins {
